@@ -49,7 +49,14 @@ def awkward_failures(ctx):
     class Falsy(Exception):
         def __bool__(self):
             return False
-    for exc in (ValueError("v"), Cancelled("c"), SystemExit(3), Falsy("f")):
+    def inner_error():
+        ip = uberjob.Plan()
+        ib = ip.call(lambda: 1 / 0)
+        try:
+            uberjob.run(ip, output=ib, progress=None, max_workers=1)
+        except uberjob.CallError as e:
+            return e
+    for exc in (ValueError("v"), Cancelled("c"), SystemExit(3), Falsy("f"), inner_error()):
         for variant in ("plain", "raising-repr-callable", "raising-repr-scope", "inside-except"):
             for workers, retry in ((1, None), (3, None), (1, 2), (3, 3)):
                 plan = uberjob.Plan()
